@@ -872,6 +872,13 @@ func (c *Conn) ReadBatchWith(cfg ReadBatchConfig) *Batch {
 	if err == nil {
 		if highWaterMark == offset {
 			msgs = &messageSetReader{empty: true}
+			// The empty reader never touches the connection: whatever message
+			// set the response carries nevertheless must be skipped here, the
+			// connection is kept open and the next response has to start
+			// right after this one.
+			if remain > 0 {
+				_, err = discardN(&c.rbuf, remain, remain)
+			}
 		} else {
 			msgs, err = newMessageSetReader(&c.rbuf, remain)
 		}
